@@ -46,6 +46,7 @@ fn main() {
         ("drive", "metadata") => props::metadata::drive(&args),
         ("faults", "fields") => props::faults::write_fields(&args),
         ("faults", "child") => props::faults::child(&args),
+        ("faults", "dump") => props::faults::dump(&args),
         ("faults", "run") => props::faults::run(&args),
         ("replay", "ods_text") => props::ods_text::replay(&args),
         ("replay", "stream") => props::stream::replay(&args),
